@@ -152,6 +152,16 @@ func c13Catalogue() []c13Call {
 			return valid.NestedStructForRule(x.v, map[interface{}]valid.RM{&c13Node{}: rm, &c13Odd{}: nil})
 		})
 		add("NestedStructForRule-nil", x.name, func() error { return valid.NestedStructForRule(x.v, nil) })
+		// rule sets filed under objects that are no structs (the slice being validated, a number, a text, a typed nil):
+		// such a set matches nothing
+		add("NestedStructForRule-odd-objects", x.name, func() error {
+			n, list := 7, []c13Node{{}}
+			return valid.NestedStructForRule(x.v, map[interface{}]valid.RM{&list: rm, &n: rm, "text": rm, 3.5: rm, (*c13Node)(nil): rm, &c13Node{}: rm, struct{}{}: rm, &struct{}{}: rm, [0]int{}: rm})
+		})
+		add("SetRule-odd-object", x.name, func() error {
+			n := 7
+			return valid.NewVStruct().SetRule(rm, &n).SetRule(rm, "text").SetRule(rm, &[]*c13Node{nil}).SetRule(rm, struct{}{}).Valid(x.v)
+		})
 		add("ValidStructForRule", x.name, func() error { return valid.ValidStructForRule(rm, x.v) })
 		add("ValidStructForMyValidFn", x.name, func() error { return valid.ValidStructForMyValidFn(x.v, "noop", noop) })
 		add("Var", x.name, func() error { return valid.Var(x.v, "required", "to=1~3") })
